@@ -649,6 +649,20 @@ class ModelsMixin(object):
             if is_intlike(item):
                 self.unsupported("int in bytes")
             self.py_raise(TypeError, "a bytes-like object is required")
+        if isinstance(container, range):
+            if not is_intlike(item):
+                return False
+            if not is_sym(item):
+                return item in container
+            t = int_term(item)
+            a, b, st = container.start, container.stop, container.step
+            if st > 0:
+                c = z3.And(t >= a, t < b)
+                if st != 1:
+                    c = z3.And(c, (t - a) % st == 0)
+            else:
+                c = z3.And(t <= a, t > b, (a - t) % (-st) == 0)
+            return SBool(c)
         if isinstance(container, SSeq):
             return self.sseq_contains(container, item)
         if container is None or isinstance(container, (int, SInt, SBool, Opaque)):
